@@ -290,6 +290,15 @@ fn history(start: &str, nops: usize, rng: &mut Rng, rep: &mut Report, batch: &mu
                 rep.oracle("removed-observable", "get", &case.script(), &format!("get({i}) succeeded"));
             }
         }
+        // ... not even to the caller's own predicate: `search_nodes` shows it every live node once, in arena order, and nothing else
+        {
+            let seen = std::cell::RefCell::new(Vec::<usize>::new());
+            let _ = guarded(std::panic::AssertUnwindSafe(|| st.tree.search_nodes(|n| { seen.borrow_mut().push(n.id); false })));
+            let live_ids: Vec<usize> = slots.iter().enumerate().filter(|(_, s)| !s.deleted).map(|(i, _)| i).collect();
+            if *seen.borrow() != live_ids {
+                rep.oracle("removed-observable", "search_nodes-predicate-shown-other-than-the-live-nodes", &case.script(), &format!("shown {:?}, live {:?}", seen.borrow(), live_ids));
+            }
+        }
         // ... through ANY query that takes a node id: a removed id (and an id that was never handed out) is refused by every
         // traversal, listing, path, ancestor and distance query — alone and paired with a live node, in either position
         let live: Option<usize> = slots.iter().position(|s| !s.deleted);
